@@ -39,15 +39,3 @@ Definition pinned_decls_heapq : list string :=
 
 Definition ok_heapq : Prop :=
   of_file fst "heapq.go" InvHeapq.inventory = pinned_heapq /\ of_file (fun s => s) "heapq.go" InvHeapq.decls = pinned_decls_heapq.
-
-Lemma C05_inventory_heapq : InvHeapq.files = pinned_files /\ ok_heapq.
-Proof. unfold ok_heapq; repeat split; vm_compute; reflexivity. Qed.
-
-Lemma C06_inventory_heapq : InvHeapq.files = pinned_files /\ ok_heapq.
-Proof. unfold ok_heapq; repeat split; vm_compute; reflexivity. Qed.
-
-Lemma C08_inventory_heapq : InvHeapq.files = pinned_files /\ ok_heapq.
-Proof. unfold ok_heapq; repeat split; vm_compute; reflexivity. Qed.
-
-Lemma C09_inventory_heapq : InvHeapq.files = pinned_files /\ ok_heapq.
-Proof. unfold ok_heapq; repeat split; vm_compute; reflexivity. Qed.
